@@ -27,6 +27,8 @@ type histCase struct {
 		// Nested: user types that bring their OWN types: [name, text, [nested...]] (recursively); they are added to the root only,
 		// and each nested list only to its owner (the library merges the tables when the root compiles)
 		Nested []json.RawMessage `json:"nested"`
+		// RegexTypes: [name, "/pattern/"] regex types added to this schema's root
+		RegexTypes [][2]string `json:"regex_types"`
 		// UseShared: names of the shared types added to this schema (absent = all of them)
 		UseShared []string `json:"use_shared"`
 	} `json:"schemas"`
@@ -37,7 +39,12 @@ type histCase struct {
 	Enums       []string        `json:"enums"`
 	Regexes     []string        `json:"regexes"`
 	Ops         [][]interface{} `json:"ops"`
+	// Scribble: the caller writes into every example it receives
+	Scribble bool `json:"scribble"`
 }
+
+// scribble: every Example() result is overwritten and appended to by the "caller" (set per case)
+var scribble bool
 
 type pool struct {
 	schemas []*js.Schema
@@ -63,6 +70,10 @@ func buildPool(c *histCase) *pool {
 		for _, t := range s.Types {
 			ts = append(ts, js.New(t[0], t[1]))
 		}
+		var rts [][2]interface{}
+		for _, t := range s.RegexTypes {
+			rts = append(rts, [2]interface{}{t[0], regex.New(t[0], t[1])})
+		}
 		all := append([]*js.Schema{root}, ts...)
 		for _, x := range all {
 			for i, t := range s.Types {
@@ -77,6 +88,9 @@ func buildPool(c *histCase) *pool {
 					_ = x.AddType(t[0], shared[i])
 				}
 			}
+		}
+		for _, rt := range rts {
+			_ = root.AddType(rt[0].(string), rt[1].(*regex.Schema))
 		}
 		for _, raw := range s.Nested {
 			if name, t := buildNested(raw); t != nil {
@@ -121,7 +135,16 @@ func runOp(p *pool, op []interface{}) (res string, again func() string) {
 		if err != nil {
 			return errInfo(err), nil
 		}
-		return "X:" + hex.EncodeToString(b), func() string { return "X:" + hex.EncodeToString(b) }
+		first := "X:" + hex.EncodeToString(b)
+		if scribble {
+			// the caller owns the returned bytes: writing into them and appending to them must not reach the schema
+			for i := range b {
+				b[i] ^= 0x20
+			}
+			b = append(b, "\r\n/*"...)
+			return first, nil
+		}
+		return first, func() string { return "X:" + hex.EncodeToString(b) }
 	case "ast":
 		a, err := p.schemas[idx(1)].GetAST()
 		if err != nil {
@@ -199,6 +222,7 @@ func init() {
 			return `["BADCASE"]`
 		}
 		docTexts = c.Docs
+		scribble = c.Scribble
 		shared := buildPool(&c)
 		type ent struct {
 			hist, fresh string
@@ -276,7 +300,12 @@ func keepErr(err error) (string, func() string) {
 		if err == nil {
 			return "ok"
 		}
-		return errInfo(err) + "#" + hex.EncodeToString([]byte(err.Error()))
+		txt := err.Error()
+		// the other fields a caller can read: the type the error is attributed to
+		if u, ok := err.(interface{ IncorrectUserType() string }); ok && u.IncorrectUserType() != "" {
+			txt += " [type " + u.IncorrectUserType() + "]"
+		}
+		return errInfo(err) + "#" + hex.EncodeToString([]byte(txt))
 	}
 	first := render()
 	return first, render
